@@ -269,6 +269,12 @@ class Predicates(PredicatesBase, qset[Predicate]):
         # mismatch.
         get = self._lookup.get
         conflicts: dict[Predicate, Predicate]|None = None
+        # Arriving predicates must not conflict with each other either.
+        symbols: dict[Any, Predicate] = {}
+        for pred in arriving:
+            other = symbols.setdefault(pred.bicoords, pred)
+            if other != pred:
+                raise Emsg.ValueConflictFor(pred, pred.spec, other.spec)
         for pred in arriving:
             for prior in filter(None, map(get, pred.refs)):
                 if prior != pred:
